@@ -403,9 +403,21 @@ fn gen_shortcut_raw(rng: &mut Rng, cfg: &GenCfg) -> Node {
         // X*Y with related / unrelated / anchor followers -> unambiguous-repeat rewrite
         3 | 4 => {
             let x = single(rng);
-            let y = match rng.below(5) {
+            let y = match rng.below(8) {
                 0 => Node::Bol,
                 1 => Node::Eol,
+                // followers that can match nothing: what comes after them decides
+                5 => {
+                    let s1 = single(rng);
+                    Node::NcGroup(Box::new(Node::Alt(vec![quant(rng, s1), Node::Empty])))
+                }
+                6 => {
+                    let s1 = single(rng);
+                    let s2 = single(rng);
+                    let a = quant(rng, Node::NcGroup(Box::new(Node::Cat(vec![s1, s2]))));
+                    Node::NcGroup(Box::new(Node::Alt(vec![a.clone(), a])))
+                }
+                7 => Node::Group(Box::new(Node::Repeat { body: Box::new(single(rng)), min: 0, max: Some(1), greedy: true, spell: 0 })),
                 2 => {
                     // case-related follower
                     match &x {
@@ -420,9 +432,12 @@ fn gen_shortcut_raw(rng: &mut Rng, cfg: &GenCfg) -> Node {
             if rng.chance(1, 2) {
                 v.push(single(rng));
             }
-            v.push(quant(rng, x));
+            v.push(quant(rng, x.clone()));
             v.push(y);
-            if rng.chance(1, 2) {
+            if rng.chance(1, 3) {
+                // the repeated term again after the follower
+                v.push(x);
+            } else if rng.chance(1, 2) {
                 v.push(tail(rng));
             }
             Node::Cat(v)
